@@ -148,32 +148,69 @@ def convert_rules(ctx):
         if not (parts and isinstance(parts[0], App) and parts[0].op == "loopvar" and parts[0].args[2] == Const("")):
             return None
         return parts[1:]
-    ok = False
+    def loops_of(o_):
+        """{line: (iterable, name of the iterated variable)} and the loop-carried values of an outcome, for teval"""
+        loops, louts = {}, {}
+        for e_ in o_.effects:
+            if isinstance(e_, App) and e_.op == "eff:loop" and getattr(e_.node, "lineno", None) is not None:
+                loops[e_.node.lineno] = (e_.args[0], e_.node.iter.id if isinstance(e_.node, ast.For) and isinstance(e_.node.iter, ast.Name) else None)
+        for s_ in subterms(o_.value):
+            if isinstance(s_, App) and s_.op == "loopout" and len(s_.args) == 3:
+                louts.setdefault(s_.args[1].v, {})[s_.args[0].v] = s_.args[2]
+        return {"__loops__": loops, "__loopouts__": louts}
+
+    # decided by evaluating the returned term on sample rows (whatever the way the text is accumulated); the shape rule is the fallback
+    ok, found_ = False, "format not recognised"
     if len(fro) == 1:
-        pieces = loop_acc(fro[0].value)
-        loops_ = [e for e in fro[0].effects if isinstance(e, App) and e.op == "eff:loop"]
-        if pieces is not None and len(loops_) == 1 and loops_[0].args[0] == d and len(pieces) == 3:
-            ok = pieces[0] == Const("0x") and pieces[2] == Const(", ") and isinstance(pieces[1], App) and pieces[1].op == "fmt" \
-                and pieces[1].args[0] == App("elem", (d,)) and isinstance(pieces[1].args[1], Const) and "02x" in str(pieces[1].args[1].v)
+        try:
+            ok = True
+            for sample in (b"", b"\x00", b"\x01\xab\xff", bytes(range(250, 256)) + bytes(range(0, 20))):
+                got = teval(fro[0].value, {"param:data": sample, **loops_of(fro[0])})
+                want_ = "".join("0x%02x, " % b for b in sample)
+                if got != want_:
+                    ok, found_ = False, f"{sample.hex()} -> {got!r}"
+                    break
+        except Unknown:
+            pieces = loop_acc(fro[0].value)
+            loops_ = [e for e in fro[0].effects if isinstance(e, App) and e.op == "eff:loop"]
+            ok = False
+            if pieces is not None and len(loops_) == 1 and loops_[0].args[0] == d and len(pieces) == 3:
+                ok = pieces[0] == Const("0x") and pieces[2] == Const(", ") and isinstance(pieces[1], App) and pieces[1].op == "fmt" \
+                    and pieces[1].args[0] == App("elem", (d,)) and isinstance(pieces[1].args[1], Const) and "02x" in str(pieces[1].args[1].v)
+            found_ = repr(fro[0].value)[:200]
     R.check("C15-D2b formatting covers every byte once", ok, "each byte of the row, in order, as 0x%02x",
-            mod=fr.module, node=fr.node, function=ctx.fq(fr), expected="text += f'0x{b:02x}, ' for b in data", found=repr(fro[0].value)[:200] if fro else "format not recognised")
+            mod=fr.module, node=fr.node, function=ctx.fq(fr), expected="'0x%02x, ' for every byte of the row, in order", found=found_)
     pa = repo.func(CONV, "KeyConverter._prepare_array")
     pao = [o for o in ev.outcomes(pa) if o.kind == "return"]
-    ok = False
+    ok, found_ = False, "shape not recognised"
     if len(pao) == 1:
         def fcall(name, *args):
             return App("call", (Ref("func", repo.func(CONV, "KeyConverter." + name)), SELF) + tuple(args))
         SPLIT = fcall("_split_bytes_per_row", fcall("_get_public_key_data"))
-        parts = flat_cat(pao[0].value)
-        # <all rows>[:-2] + newline
-        if len(parts) == 2 and parts[1] == Const("\n") and isinstance(parts[0], App) and parts[0].op == "slice" \
-                and parts[0].args[1:] == (Const(None), Const(-2), Const(None)):
-            pieces = loop_acc(parts[0].args[0])
-            loops_ = [e for e in pao[0].effects if isinstance(e, App) and e.op == "eff:loop"]
-            ok = pieces == [fcall("_format_row", App("elem", (SPLIT,))), Const("\n")] and len(loops_) == 1 and loops_[0].args[0] == SPLIT
+        try:
+            ok = True
+            for key in (b"", b"A", b"ABC", b"ABCDEFG"):
+                stand_ins = {"_get_public_key_data": lambda s_: key, "_split_bytes_per_row": lambda s_, d_: [d_[i_:i_ + 3] for i_ in range(0, len(d_), 3)],
+                             "_format_row": lambda s_, r_: "  <" + r_.hex() + ">,"}
+                got = teval(pao[0].value, {"__calls__": stand_ins, **loops_of(pao[0])})
+                rows_ = stand_ins["_split_bytes_per_row"](None, key)
+                want_ = "".join(stand_ins["_format_row"](None, r_) + "\n" for r_ in rows_)[:-2] + "\n"
+                if got != want_:
+                    ok, found_ = False, f"rows {rows_} -> {got!r}"
+                    break
+        except Unknown:
+            ok = False
+            parts = flat_cat(pao[0].value)
+            # <all rows>[:-2] + newline
+            if len(parts) == 2 and parts[1] == Const("\n") and isinstance(parts[0], App) and parts[0].op == "slice" \
+                    and parts[0].args[1:] == (Const(None), Const(-2), Const(None)):
+                pieces = loop_acc(parts[0].args[0])
+                loops_ = [e for e in pao[0].effects if isinstance(e, App) and e.op == "eff:loop"]
+                ok = pieces == [fcall("_format_row", App("elem", (SPLIT,))), Const("\n")] and len(loops_) == 1 and loops_[0].args[0] == SPLIT
+            found_ = repr(pao[0].value)[:240]
     R.check("C15-D2b formatting covers every byte once", ok, "every row of the public key data is emitted; only the trailing ', ' -> ',\\n' of the last row is removed",
             mod=pa.module, node=pa.node, function=ctx.fq(pa), expected="for row in split(data): text += format(row) + newline; text = text[:-2] + newline",
-            found=repr(pao[0].value)[:240] if pao else "shape not recognised")
+            found=found_)
     frow = repo.func(CONV, "KeyConverter._format_row")
     fo = [o for o in ev.outcomes(frow) if o.kind == "return"]
     R.check("C15-D2b formatting covers every byte once", bool(fo) and "meth:strip" in repr(fo[0].value) and "_indentation" in repr(fo[0].value),
